@@ -62,6 +62,11 @@ where
     let mut adapt_steps = 0u64;
     let mut frozen_steps = 0u64;
     for (ri, (n_collect, n_discard)) in plan.iter().enumerate() {
+        // a user may re-seed the chain between runs: the adaptation state is not part of the random stream
+        if ri > 0 && g.chance(0.3) {
+            chain = chain.set_seed(g.next_u64());
+            rep.count("chains_reseeded_between_runs");
+        }
         let before = chain.verif_adapt_state();
         reset_budget(1 << 15);
         hook::enable();
@@ -104,6 +109,25 @@ where
             return;
         }
         if first {
+            // eps0 is a function of target, start point and seed alone: the same chain built on a
+            // fresh thread (no earlier sampler has run there) finds the same value
+            let (tg, it, dl) = (target.clone(), init.clone(), delta);
+            let fresh = std::thread::scope(|sc| {
+                sc.spawn(move || {
+                    let mut c = NUTSChain::<T, B, G>::new(tg, it, dl).set_seed(seed);
+                    let _ = c.run(1, 0);
+                    c.verif_adapt_state().1.f()
+                })
+                .join()
+            });
+            match fresh {
+                Ok(e) if e.to_bits() == eps_start.to_bits() => rep.count("eps0_equal_on_a_fresh_thread"),
+                Ok(e) => {
+                    rep.violation(&format!("{sig} eps0-depends-on-what-ran-before-on-the-thread"), mon, case, detail("eps0", json!({"eps0_here": eps_start, "eps0_on_a_fresh_thread": e})));
+                    return;
+                }
+                Err(_) => {}
+            }
             // eps0 from the doubling/halving heuristic at the start point: post-condition
             let mut rng = SmallRng::seed_from_u64(seed);
             let mom0: Vec<f64> = (&mut rng).sample_iter(StandardNormal).take(d).map(|x: T| x.f()).collect();
